@@ -126,24 +126,46 @@ class BorrowedResources(BaseResources[T]):
         # do not postpone if we can resume immediately
         if not self._resources._available >= self._debits:
             await (self._resources._available >= self._debits)
-        await self._resources.__remove_resources__(self._debits)
-        await self.__insert_resources__(self._debits)
+        try:
+            await self._resources.__remove_resources__(self._debits)
+        except BaseException:
+            # interrupted after taking the resources but before entering the block:
+            # __aexit__ will not run, dispatch a new activity to hand them back
+            __USIM_STATE__.loop.schedule(
+                self._resources.__insert_resources__(self._debits)
+            )
+            raise
+        try:
+            await self.__insert_resources__(self._debits)
+        except BaseException:
+            self._release_forcefully()
+            raise
         return self
 
     async def __aexit__(self, exc_type, exc_val, exc_tb):
         if exc_type is GeneratorExit:
             # we are killed forcefully and cannot perform async operations
-            # dispatch a new activity to release our resources eventually
-            __USIM_STATE__.loop.schedule(
-                self.__remove_resources__(self._debits)
-            )
-            __USIM_STATE__.loop.schedule(
-                self._resources.__insert_resources__(self._debits)
-            )
+            self._release_forcefully()
         else:
-            await self.__remove_resources__(self._debits)
+            try:
+                await self.__remove_resources__(self._debits)
+            except BaseException:
+                # interrupted while releasing: still hand back what we borrowed
+                __USIM_STATE__.loop.schedule(
+                    self._resources.__insert_resources__(self._debits)
+                )
+                raise
             await self._resources.__insert_resources__(self._debits)
             # TODO: forcefully kill off anyone holding our resources?
+
+    def _release_forcefully(self):
+        """Dispatch new activities to release our resources eventually"""
+        __USIM_STATE__.loop.schedule(
+            self.__remove_resources__(self._debits)
+        )
+        __USIM_STATE__.loop.schedule(
+            self._resources.__insert_resources__(self._debits)
+        )
 
     def borrow(self, **amounts: T) -> 'BorrowedResources[T]':
         borrowing = super().borrow(**amounts)
